@@ -680,7 +680,7 @@ def run_c07(ctx):
     cases, tags, expect = [], [], []   # expect: 'fit' | 'oversize' | None (unknown)
     # AVP sizes straddling 255/256 and 1023/1024
     for k in ['HostName', 'Challenge', 'PrivateGroupId', 'ProxyAuthenName']:
-        for n in [1, 249, 250, 251, 255, 256, 1016, 1017, 1018, 1019, 1100, 2000, 70000 if ctx.thorough else 1500]:
+        for n in [1, 249, 250, 251, 255, 256, 1016, 1017, 1018, 1019, 1100, 2000, 65529, 65530, 65531, 66000, 66553, 66554, 70000, 131072, 131700]:
             cases.append('ENCA\t%s(%s)\t%s' % (k, rbytes(rng, n).hex(), rbytes(rng, rng.randrange(0, 4)).hex()))
             tags.append('avp_bytes_%d' % n); expect.append('fit' if 6 + n <= 1023 else 'oversize')
     for n in [1, 250, 1017, 1018, 1300]:
@@ -846,6 +846,13 @@ def run_c08(ctx):
                 recs.append(bad_record(rng)[0])
             else:
                 recs.append(avp_rec(rng.randrange(0, 45), rbytes(rng, rng.choice([0, 16, 5])), h=1))
+        recsets.append(recs)
+    for total in (65500, 65536, 66000, 131100):   # record lists beyond 64 KiB
+        recs, sz = [], 0
+        while sz < total:
+            r = avp_rec(rng.choice([7, 11, 37]), rbytes(rng, rng.choice([1000, 1017, 500])))
+            recs.append(r); sz += len(r)
+        recs.append(good_record(rng))
         recsets.append(recs)
     flat = ['AVPS\t' + r.hex() for rs_ in recsets for r in rs_]
     cat = ['AVPS\t' + b''.join(rs_).hex() for rs_ in recsets]
